@@ -37,7 +37,7 @@ var registry = map[string]*propCfg{}
 func init() {
 	registry["C02"] = &propCfg{
 		Engine: chunk.Engine{}, EngineName: "chunk", Level: "exploration",
-		QuickRuns: 60000, ThoroughRuns: 600000, QuickCapS: 60, ThoroughCapS: 900,
+		QuickRuns: 50000, ThoroughRuns: 600000, QuickCapS: 60, ThoroughCapS: 900,
 		Rule: "one run = one document written by the independent JSON/CBOR/UBJSON writers (1 in 4 then corrupted), delivered under every single cut, all 1-byte chunks, all cut pairs if len<=24, seeded cut sets (incl. empty writes) and seeded read plans (eof with/after data); evaluations = parser executions; a case is non-trivial if a cut lands strictly inside a multi-byte token (or the document is corrupted) and distinct by (document, entry point, cut set / read plan)",
 		Components: map[string][]string{
 			"real": {"json.Parser", "ubjson.Parser", "cborl.Parser", "Parse/ParseString/Write/ParseReader entry points", "io.Copy"},
